@@ -14,7 +14,9 @@ using namespace vfh;
 static int g_hash = 0; static std::string g_lv = "1"; static size_t g_lvpos = 0;
 // Keys are announced to the happens-before oracle (-hb): whoever reaches an element through the container (lookup, traversal, another
 // insert comparing against it) must see the key its inserter wrote.
-struct Key { int k; Key(int x = 0) : k(x) { vf_plain_write(&k); } Key(const Key& o) : k(o.k) { vf_plain_read(&o.k); vf_plain_write(&k); } Key& operator=(const Key& o) { vf_plain_read(&o.k); vf_plain_write(&k); k = o.k; return *this; } ~Key() { vf_plain_write(&k); }
+struct Key { int k; Key(int x = 0) : k(x) { vf_plain_write(&k); } Key(const Key& o) : k(o.k) { vf_plain_read(&o.k); vf_plain_write(&k); }
+    Key(Key&& o) : k(o.k) { vf_plain_read(&o.k); vf_plain_write(&k); vf_plain_write(&o.k); o.k = -12345; }   /* a moved-from key no longer compares equal to its old value (like std::string): the library must not use it afterwards */
+    Key& operator=(const Key& o) { vf_plain_read(&o.k); vf_plain_write(&k); k = o.k; return *this; } ~Key() { vf_plain_write(&k); }
     operator int() const { vf_plain_read(&k); return k; }
     bool operator<(const Key& o) const { vf_plain_read(&k); vf_plain_read(&o.k); return k < o.k; } bool operator==(const Key& o) const { vf_plain_read(&k); vf_plain_read(&o.k); return k == o.k; } };
 typedef Key KT;
